@@ -55,7 +55,7 @@ def parse_off_data(data):
             output.face_corners += [(x,i_f) for x in face]
             i_f += 1
         elif nvi==2:
-            a,b = simplex[1], simplex[2]
+            a,b = int(simplex[1]), int(simplex[2])
             output.edges.append((min(a,b), max(a,b)))
         elif nvi==4:
             cell = [int(u) for u in simplex[1:nvi+1]]
